@@ -310,13 +310,13 @@ static void check_file(void)
     check_plain(7);
     if (file_nlines == NLINES) VWITNESS("(known finding active) only the missing-file case is left");
 #elif defined(KF_ONLY_C40_FILE_PARSER)
-    /* the recorded class with one-line files, parser called directly (parsec_vpmap_init would go on
-     * to walk the partly initialised map: no verdict in 1500 s) */
-    (void)buf; (void)exp_tpl;
-    if (file_nlines == 1) {
+    /* the recorded class, restricted to one-line files without a line for this process (the other
+     * members write outside the map: CBMC gives no verdict in 1500 s on them, ASan reports them
+     * natively, see FINDING.md); the parser is called directly */
+    (void)buf; (void)exp_tpl; (void)exp_nbth;
+    if (file_nlines == 1 && exp_nbvp == 0) {
         parsec_vpmap_init_from_file("f");
-        VASSERTM(parsec_vpmap_get_nb_vp() == (exp_nbvp ? exp_nbvp : 1), "file: one VP per applicable line (one flat VP when there is none)");
-        if (exp_nbvp == 1) VASSERTM(parsec_vpmap != NULL && parsec_vpmap[0].nbthreads == exp_nbth[0], "file: the first VP has the thread count of its line");
+        VASSERTM(parsec_vpmap_get_nb_vp() == 1, "file: a file without a line for this process yields one flat VP");
     }
 #else
     VASSERTM(parsec_vpmap_init(buf, NBT) == 0, "init returns 0");
